@@ -12,3 +12,6 @@ pub mod cgen;
 pub mod scan;
 pub mod builder_ops;
 pub mod postcanon;
+pub mod inv;
+pub mod c04gen;
+pub mod c01gen;
